@@ -11,7 +11,8 @@ Definition genv : gob_env := {|
   ge_sw_typer := sw_GetItemByType; ge_sw_typer_default := sw_GetItemByType_default;
   ge_layout := layout_of; ge_layout_endpoints := layout_endpoints;
   ge_leaf_w := gobw_leaf; ge_leaf_r := gobr_leaf; ge_leaf_layouts := gob_leaf_layouts; ge_sniff := gob_sniff;
-  ge_ptr_iri := true; ge_endpoints_codec := true |}.
+  ge_codecs_w := gobw_codecs; ge_codecs_r := gobr_codecs; ge_enc_item := gob_enc_item; ge_typer_presets := gob_typer_presets;
+  ge_endpoints_codec := true |}.
 
 (* ---- the pinned tree (commit e898418), as edits of the regenerated tables ---- *)
 Definition w_key (e : gwentry) : bytes := match e with GW _ k _ _ _ _ _ => k | _ => [] end.
@@ -57,6 +58,10 @@ Definition gobr_funcs_pinned :=
 Definition gob_sniff_pinned : list gsniff :=
   map (fun s => match s with GSMap fn tkey _ pos => GSMap fn tkey false pos | _ => s end) gob_sniff.
 
+(* pinned gobEncodeItem: no case for an IRI held by pointer (it fell through to `return []byte{}, nil`) *)
+Definition gob_enc_item_pinned : list genc_stmt :=
+  map (fun s => match s with GEIriBlock byv _ fb pos => GEIriBlock byv false fb pos | _ => s end) gob_enc_item.
+
 Definition genv_pinned : gob_env := {|
   ge_wfuncs := gobw_funcs_pinned; ge_rfuncs := gobr_funcs_pinned;
   ge_enc_methods := gob_enc_methods; ge_dec_methods := gob_dec_methods;
@@ -65,4 +70,5 @@ Definition genv_pinned : gob_env := {|
   ge_sw_typer := sw_GetItemByType; ge_sw_typer_default := sw_GetItemByType_default;
   ge_layout := layout_of; ge_layout_endpoints := layout_endpoints;
   ge_leaf_w := gobw_leaf; ge_leaf_r := gobr_leaf; ge_leaf_layouts := gob_leaf_layouts; ge_sniff := gob_sniff_pinned;
-  ge_ptr_iri := false; ge_endpoints_codec := false |}.
+  ge_codecs_w := gobw_codecs; ge_codecs_r := gobr_codecs; ge_enc_item := gob_enc_item_pinned; ge_typer_presets := gob_typer_presets;
+  ge_endpoints_codec := false |}.
